@@ -552,3 +552,204 @@ Example C03_tuple_named_parent_old :
   /\ wf_case c = false /\ tuple_positional_b np_src = false /\ ok c = true.
 Proof. exact tuple_named_parent_old. Qed.
 Print Assumptions C03_tuple_named_parent_old.
+
+(** ---- non-vacuity of the hypotheses (audit) ----
+    Already witnessed above: [C03_end_to_end_example] (plain, generate = Ok), [C03_generate_is_dataflow_instance],
+    [C03_model_ok_example] (wfsrc, outputs_wf, generate = Ok: model_log_exact, model_ok), [C03_declared_example] (dok = true),
+    [C03_generate_succeeds_example] (all hypotheses of generate_succeeds / generate_total_and_sound / compile_ok_iff),
+    [C03_tuple_named_parent_refused] (generate = Err: model_refusal_ok).  The remaining ones: *)
+
+(** the loaded net of [ex_src] for the discrepancy: execution on a fresh cache and again on the cache it leaves
+    (execute_is_dataflow with an empty and a non-empty cache, execute_log_exact, meaning_unique: [Den] is inhabited) *)
+Example C03_execute_is_dataflow_nonvacuous :
+  match compile ex_src ["d"%string] with
+  | Ok g =>
+      CacheOK empty_cache
+      /\ exists out log c', execute (load [] g) empty_cache = Ok (out, log, c') /\ List.length log = 6%nat
+           /\ CacheOK c' /\ ec_orders c' <> [] /\ execute (load [] g) c' = Ok (out, log, c')
+           /\ exists v, In ("d"%string, v) out /\ Den (load [] g) "d"%string v
+  | Err _ => False
+  end.
+Proof.
+  destruct (compile ex_src ["d"%string]) as [g|e] eqn:Ec; [|vm_compute in Ec; discriminate].
+  split; [exact CacheOK_empty|].
+  destruct (execute (load [] g) empty_cache) as [[[out log] c']|e'] eqn:Ee;
+    [|exfalso; vm_compute in Ec; injection Ec as <-; vm_compute in Ee; discriminate].
+  destruct (C03_execute_is_dataflow _ _ _ _ _ CacheOK_empty Ee) as (Hd & _ & _ & _ & Hc & _).
+  exists out, log, c'. split; [reflexivity|].
+  vm_compute in Ec; injection Ec as <-. vm_compute in Ee. injection Ee as <- <- <-.
+  split; [reflexivity|]. split; [exact Hc|]. split; [discriminate|]. split; [vm_compute; reflexivity|].
+  eexists. split; [left; reflexivity|]. apply Hd. left; reflexivity.
+Qed.
+
+(** run_order on the loaded net in the order of the call log of [C03_example] *)
+Example C03_run_order_nonvacuous :
+  match compile ex_src ["d"%string] with
+  | Ok g =>
+      Inv (load [] g) (load [] g)
+      /\ NoDup ["c"; "_s_observed"; "_d_observed"; "t"; "y"; "s"; "d"]%string
+      /\ exists g', run_order (load [] g) ["c"; "_s_observed"; "_d_observed"; "t"; "y"; "s"; "d"]%string []
+                    = Ok (g', ["_s_observed"; "_d_observed"; "t"; "y"; "s"; "d"]%string)
+  | Err _ => False
+  end.
+Proof.
+  destruct (compile ex_src ["d"%string]) as [g|e] eqn:Ec; [|vm_compute in Ec; discriminate].
+  split; [apply Inv_refl|]. split; [apply nodup_b_sound; vm_compute; reflexivity|].
+  vm_compute in Ec; injection Ec as <-. vm_compute. eexists. reflexivity.
+Qed.
+
+Example C03_compile_outputs_nonvacuous :
+  exists cn, compile_outputs (s_nodes ex_src) = Ok cn /\ List.length cn = 6%nat.
+Proof. vm_compute. eexists. split; reflexivity. Qed.
+
+(** the batch_size edge to the prior "t" of [ex_src] *)
+Example C03_runtime_edges_nonvacuous :
+  NoDup (map fst (s_nodes ex_src))
+  /\ In ("t"%string, ex_st "t"%string None true true false false true) (s_nodes ex_src)
+  /\ s_uses_batch_size (ex_st "t"%string None true true false false true) = true
+  /\ forall g, In ("_batch_size"%string, "t"%string, PStr "batch_size"%string)
+                  (c_edges (compile_instruction ex_src s_uses_batch_size "_batch_size"%string g)).
+Proof.
+  assert (H1 : NoDup (map fst (s_nodes ex_src))) by (apply nodup_b_sound; vm_compute; reflexivity).
+  assert (H2 : In ("t"%string, ex_st "t"%string None true true false false true) (s_nodes ex_src)) by (right; left; reflexivity).
+  refine (conj H1 (conj H2 (conj eq_refl _))).
+  intros g. exact (C03_runtime_edges_all_declared ex_src s_uses_batch_size "_batch_size"%string g _ _ H1 H2 eq_refl).
+Qed.
+
+(** the stochastic check on the net after the ObservedCompiler: the discrepancy uses observed data; the ancestors of its tuple *)
+Example C03_stochastic_observed_rejected_nonvacuous :
+  match compile_outputs (s_nodes ex_src) with
+  | Ok cn =>
+      match compile_observed ex_src (topo_order ex_src) [] []
+              {| c_nodes := cn; c_edges := s_edges ex_src; c_outputs := ["d"%string]; c_observed := s_observed ex_src |} with
+      | Ok (g1, _, uses) =>
+          check_stochastic ex_src g1 uses = Ok tt /\ In "d"%string uses
+          /\ tl (ancestors_incl (c_edges g1) [observed_name "d"%string]) <> []
+          /\ In "_s_observed"%string (tl (ancestors_incl (c_edges g1) [observed_name "d"%string]))
+      | Err _ => False
+      end
+  | Err _ => False
+  end.
+Proof. vm_compute. repeat split; try discriminate; tauto. Qed.
+
+Example C03_supplied_never_runs_nonvacuous :
+  match compile ex_src ["d"%string] with
+  | Ok g =>
+      NoDup (map fst [("zz"%string, None); ("t"%string, Some (VConst 5)); ("y"%string, None)])
+      /\ In ("t"%string, Some (VConst 5)) [("zz"%string, None); ("t"%string, Some (VConst 5)); ("y"%string, None)]
+      /\ has "t"%string (c_nodes g) = true
+      /\ has_op g "t"%string = true
+      /\ has_op (load_pool [("zz"%string, None); ("t"%string, Some (VConst 5)); ("y"%string, None)] g) "t"%string = false
+  | Err _ => False
+  end.
+Proof.
+  destruct (compile ex_src ["d"%string]) as [g|e] eqn:Ec; [|vm_compute in Ec; discriminate].
+  split; [apply nodup_b_sound; vm_compute; reflexivity|]. split; [right; left; reflexivity|].
+  vm_compute in Ec; injection Ec as <-. vm_compute. repeat split.
+Qed.
+
+Example C03_ancestors_sound_nonvacuous :
+  ancestors_incl (s_edges ex_src) ["s"%string] <> ["s"%string] /\ In "c"%string (ancestors_incl (s_edges ex_src) ["s"%string])
+  /\ ~ In "d"%string (ancestors_incl (s_edges ex_src) ["s"%string]).
+Proof. vm_compute. repeat split; try discriminate; [tauto | intuition discriminate]. Qed.
+
+(** twin-free end to end: the hypotheses about the net and the supplied values of [C03_end_to_end_example] *)
+Example C03_generate_twin_free_is_dataflow_nonvacuous :
+  plain e2e_src /\ NoDup (map fst [("w"%string, VConst 9)]) /\ (forall k, In k (map fst [("w"%string, VConst 9)]) -> ~ In k inames)
+  /\ has "f"%string (s_nodes e2e_src) = true.
+Proof.
+  split; [apply plain_b_sound; vm_compute; reflexivity|]. split; [repeat constructor; intros []|].
+  split; [|reflexivity]. intros k [<-|[]]. vm_compute. intuition discriminate.
+Qed.
+
+(** the declared net [decl_src]: hypotheses of model_declared_ok and of explicit_edges_are_declared *)
+Example C03_model_declared_ok_nonvacuous :
+  wfsrc decl_src /\ outputs_wf_b decl_src ["h"%string] = true /\ decl_wf (s_edges decl_src) = true
+  /\ (forall e, In e decl_script -> has (e_src e) decl_nodes = true /\ has (e_dst e) decl_nodes = true)
+  /\ distinct_pairs ([] ++ decl_script) = true.
+Proof.
+  split; [apply wfsrc_b_sound; vm_compute; reflexivity|]. split; [vm_compute; reflexivity|]. split; [vm_compute; reflexivity|].
+  split; [|vm_compute; reflexivity].
+  intros e H. simpl in H. repeat destruct H as [<-|H]; try contradiction; vm_compute; split; reflexivity.
+Qed.
+
+(** observed data that depends on a stochastic node: the summary "s" has the simulator "y" (observed) and the prior "t"
+    (stochastic, not observable) as parents; every other hypothesis of stochastic_observed_refused holds *)
+Definition so_src : snet :=
+  {| s_nodes := [("t"%string, ex_st "t"%string None true true false false true);
+                 ("y"%string, ex_st "y"%string None true true true false true);
+                 ("s"%string, ex_st "s"%string None true false true false false);
+                 ("d"%string, ex_st "d"%string None true false false true false)];
+     s_edges := [("t"%string, "y"%string, PInt 0); ("y"%string, "s"%string, PInt 0); ("t"%string, "s"%string, PInt 1);
+                 ("s"%string, "d"%string, PInt 0)];
+     s_observed := [("y"%string, VConst 7)] |}.
+
+Example C03_stochastic_observed_refused_nonvacuous :
+  wfsrc so_src /\ forallb out_ok (s_nodes so_src) = true /\ topo_ok so_src = true /\ twins_fresh so_src
+  /\ stochastic_observed so_src = true
+  /\ compile so_src ["d"%string] = Err (EStochasticObserved "t"%string)
+  /\ wf_case {| k_src := so_src; k_outputs := ["d"%string]; k_with := []; k_impl := ImplErr |} = true
+  /\ ok {| k_src := so_src; k_outputs := ["d"%string]; k_with := []; k_impl := ImplErr |} = true.
+Proof.
+  split; [apply wfsrc_b_sound; vm_compute; reflexivity|]. split; [vm_compute; reflexivity|]. split; [vm_compute; reflexivity|].
+  split; [apply twins_fresh_b_sound; vm_compute; reflexivity|]. vm_compute. repeat split.
+Qed.
+
+(** wf_case = true and ok_old = true on the model's accepted run of [ex_src] *)
+Example C03_wf_case_nonvacuous :
+  match generate ex_src ["d"%string] [] with
+  | Ok (out, log) =>
+      wf_case {| k_src := ex_src; k_outputs := ["d"%string]; k_with := []; k_impl := ImplOk out (op_log ex_src log) |} = true
+      /\ ok_old {| k_src := ex_src; k_outputs := ["d"%string]; k_with := []; k_impl := ImplOk out (op_log ex_src log) |} = true
+      /\ model_result {| k_src := ex_src; k_outputs := ["d"%string]; k_with := []; k_impl := ImplErr |} = ImplOk out (op_log ex_src log)
+  | Err _ => False
+  end.
+Proof. vm_compute. repeat split. Qed.
+
+(** execute_total / sort_order_total / sort_order_topological on a hand-written loaded net: a constant, two operations *)
+Definition aud_net : cnet :=
+  {| c_nodes := [("b"%string, {| c_out := None; c_op := Some (OpUser "b"%string) |});
+                 ("a"%string, {| c_out := Some (VConst 1); c_op := None |});
+                 ("c"%string, {| c_out := None; c_op := Some (OpUser "c"%string) |})];
+     c_edges := [("a"%string, "b"%string, PInt 0); ("b"%string, "c"%string, PInt 0); ("a"%string, "c"%string, PStr "k"%string)];
+     c_outputs := ["c"%string]; c_observed := [] |}.
+
+Example C03_sort_order_total_nonvacuous :
+  (forall u v p, In (u, v, p) (c_edges aud_net) ->
+     (fun n => if String.eqb n "a" then 0 else if String.eqb n "b" then 1 else 2) u
+     < (fun n => if String.eqb n "a" then 0 else if String.eqb n "b" then 1 else 2) v)
+  /\ sort_order aud_net = Ok ["a"; "b"; "c"]%string.
+Proof.
+  split; [|vm_compute; reflexivity].
+  intros u v p H. simpl in H. repeat destruct H as [H|H]; try contradiction; injection H as <- <- <-; vm_compute; repeat constructor.
+Qed.
+
+Example C03_execute_total_nonvacuous :
+  sort_order aud_net = Ok ["a"; "b"; "c"]%string
+  /\ (forall a x b, ["a"; "b"; "c"]%string = a ++ x :: b -> forall y p, In (x, y, p) (c_edges aud_net) -> In y b)
+  /\ (forall x, In x ["a"; "b"; "c"]%string -> has x (c_nodes aud_net) = true)
+  /\ eclosed aud_net
+  /\ (forall n c, lookup n (c_nodes aud_net) = Some c ->
+        (c_out c = None /\ c_op c <> None) \/ (c_out c <> None /\ c_op c = None))
+  /\ (forall n c, lookup n (c_nodes aud_net) = Some c -> c_op c = Some OpTuple ->
+        forall u p, In (u, p) (preds (c_edges aud_net) n) -> exists i, p = PInt i)
+  /\ (forall o, In o (c_outputs aud_net) -> has o (c_nodes aud_net) = true)
+  /\ exists out log c', execute aud_net empty_cache = Ok (out, log, c') /\ log = ["b"; "c"]%string.
+Proof.
+  assert (Hs : sort_order aud_net = Ok ["a"; "b"; "c"]%string) by (vm_compute; reflexivity).
+  split; [exact Hs|]. split; [exact (C03_sort_order_topological _ _ Hs)|].
+  split; [intros x H; simpl in H; repeat destruct H as [<-|H]; try contradiction; reflexivity|].
+  split; [intros e H; simpl in H; repeat destruct H as [<-|H]; try contradiction; split; reflexivity|].
+  split.
+  { intros n c H. cbn in H.
+    destruct (String.eqb n "b"); [injection H as <-; left; split; [reflexivity|discriminate]|].
+    destruct (String.eqb n "a"); [injection H as <-; right; split; [discriminate|reflexivity]|].
+    destruct (String.eqb n "c"); [injection H as <-; left; split; [reflexivity|discriminate]|discriminate]. }
+  split.
+  { intros n c H. cbn in H.
+    destruct (String.eqb n "b"); [injection H as <-; discriminate|].
+    destruct (String.eqb n "a"); [injection H as <-; discriminate|].
+    destruct (String.eqb n "c"); [injection H as <-; discriminate|discriminate]. }
+  split; [intros o H; simpl in H; repeat destruct H as [<-|H]; try contradiction; reflexivity|].
+  vm_compute. do 3 eexists. split; reflexivity.
+Qed.
